@@ -43,7 +43,7 @@ def sim_stream(proj, chk, extra=None, nq=8000, nt=150000):
 # ----------------------------------------------------------------------------- exhaustive scopes
 # Prop-level readings of a property's checker kept outside props/<pid>.v (theorems named <pid>_...)
 READINGS = {"C01": ["Exact3"], "C12": ["Exact5*"], "C04": ["Exact"], "C05": ["Exact"], "C02": ["Readings", "Exact3"], "C03": ["Readings", "Exact4"], "C06": ["Readings4", "Exact2"], "C07": ["Readings2", "Exact2"],
-            "C08": ["Readings2"], "C09": ["Readings5", "Exact", "FlowThm*", "FlowThm2*"], "C10": ["Readings2", "Exact5", "Exact6*"], "C11": ["Exact5", "FlowThm*", "FlowThm2*"]}
+            "C08": ["Readings2"], "C16": ["E2E*"], "C09": ["Readings5", "Exact", "FlowThm*", "FlowThm2*"], "C10": ["Readings2", "Exact5", "Exact6*"], "C11": ["Exact5", "FlowThm*", "FlowThm2*"]}
 
 
 def icase_scope(tier):
@@ -350,6 +350,16 @@ def _agree(r, proj):
 
 def _judge_stream(stream, reps, failures, cov, stats):
     for r in reps:
+        if "error" in r and r.get("case") is not None:
+            # trouble that is not an answer of the implementation (a driver that died, a sub-process that timed out on
+            # a loaded machine): the case is run once more, here, and only a repeated error is reported
+            try:
+                again = engine.run_cases(stream["component"], 0, 1, stream["params"], explicit=[r["case"]], inproc=True)
+                if again and "error" not in again[0]:
+                    cov["harness_retries"] = cov.get("harness_retries", 0) + 1
+                    r = again[0]
+            except Exception:  # noqa: BLE001
+                pass
         if "error" in r:
             failures.append({"kind": "harness", "component": stream["component"], "case": r.get("case"),
                              "detail": r["error"]})
@@ -491,9 +501,15 @@ def shrink(pid, rep):
 
 
 def coqchk(pid):
-    p = subprocess.run(f"timeout 1500 coqchk -silent -o -Q model PS -Q spec PS -Q proofs PS -Q props PS PS.{pid} 2>&1 | tail -30",
+    """independent re-check of the compiled property file and everything it depends on; returns (ok, report)"""
+    p = subprocess.run(f"timeout 1500 coqchk -silent -o -Q model PS -Q spec PS -Q proofs PS -Q props PS PS.{pid} 2>&1",
                        shell=True, capture_output=True, text=True, cwd=os.path.join(VERIF, "coq"))
-    return p.stdout[-3000:]
+    out = p.stdout[-3000:]
+    clean = all(f"* {k}: <none>" in out for k in ("Axioms", "Constants/Inductives relying on type-in-type",
+                                                   "Constants/Inductives relying on unsafe (co)fixpoints",
+                                                   "Inductives whose positivity is assumed"))
+    return p.returncode == 0 and clean, out
+
 
 
 PROPS["C20"]["custom"] = run_c20
